@@ -172,7 +172,6 @@ Proof. exact @model_forward_roots. Qed.
 (** after update every stepped parameter is a fresh childless node with a buffer of its own *)
 Theorem C18_update_fresh_params :
   forall (F : Type) (O : ScalarOps F) (s : state),
-         NoDup (map e_node (unfrozen s (model_params s))) ->
          gd_pre s (model_params s) ->
          exists s' : state,
            model_update O s = Some s' /\
